@@ -51,6 +51,21 @@ def make_tape_err(tape, mode):
         def calc_error(self, obj, norm, volume_weights=None):
             t = self.tape[self.pos % len(self.tape)]
             self.pos += 1
+            if self.mode == 7 and hasattr(obj, "this_dim"):
+                # lopsided selections: per step and dimension everything on one side of a cut point plus (most of) the
+                # deepest intervals -> thin deep side + broad side, the shape that makes rebalancing rotate a fresh split
+                if obj.this_dim == 0 and obj.start == obj.a:
+                    self.step = getattr(self, "step", -1) + 1
+                st_ = getattr(self, "step", 0)
+                L = len(self.tape)
+                d = obj.this_dim
+                cut = obj.a + (obj.b - obj.a) * ((self.tape[(st_ + d) % L] % 64) + 0.5) / 64.0
+                left = self.tape[(st_ + d + 1) % L] % 2 == 0
+                side = (obj.end <= cut) if left else (obj.start >= cut)
+                if self.tape[(st_ + 2 * d + 2) % L] % 4 == 0:
+                    side = False                  # some steps / dimensions refine only the deepest intervals
+                deepest = obj.coarsening_level == 0 and t % 3 != 0
+                return 1.0 if (side or deepest) else 0.0
             if self.mode in (5, 6):
                 # refinement directed at one target point (strongly graded trees, rebalancing rotations);
                 # mode 6 adds low background noise from the tape
@@ -81,7 +96,7 @@ def st_box(draw, dim):
 
 
 def st_tape(draw, maxlen=48):
-    mode = draw(st.sampled_from([0, 0, 0, 1, 1, 2, 2, 3, 4, 5, 5, 6]))
+    mode = draw(st.sampled_from([0, 0, 0, 1, 1, 2, 2, 3, 4, 5, 5, 6, 7, 7, 7]))
     tape = draw(st.lists(st.integers(0, 63), min_size=1, max_size=maxlen))
     return tape, mode
 
